@@ -771,7 +771,10 @@ fn push_prefix(
     let mut child = None;
     if let Some(node) = node {
         for it in &mut node.children {
-            if it.label == *label {
+            /* A compression pointer only has 14 bits, so names written at or beyond 16384 cannot
+             * be pointed at.
+             */
+            if it.label == *label && it.data < 0x4000 {
                 child = Some(&mut *it);
             }
         }
@@ -795,7 +798,7 @@ fn push_prefix(
                 children.push_back(r);
                 Some(DomainTree {
                     label: label.clone(),
-                    data: offset as u16,
+                    data: u16::try_from(offset).unwrap_or(u16::MAX),
                     children,
                 })
             }
@@ -817,7 +820,7 @@ fn push_prefix(
                 push_label(v, label);
                 Some(DomainTree {
                     label: label.clone(),
-                    data: offset as u16,
+                    data: u16::try_from(offset).unwrap_or(u16::MAX),
                     children: std::collections::LinkedList::new(),
                 })
             }
